@@ -42,6 +42,10 @@ Verdict(C) ==
            Fail(C.clone_ok, "CloneAgrees"),
            Fail(C.cvi_ok /\ C.cvf_ok, "ConvertedAgrees"),
            Fail((nested /\ C.trunc) => C.cvf_tp_ok, "ConvertedTruncLeftInverse"),
+           \* the control-layer route Control::Asm::asm_transfer_scalar: equal to the direct assembly, and a second assembly into the
+           \* same transfer object gives the same matrices again
+           Fail(C.ctl_ok, "ControlAsmAgrees"),
+           Fail(C.ctl_repeat_ok, "ControlAsmRepeatable"),
            \* inter-mesh transfer (assemble_intermesh_transfer): XC = fine -> coarse with target cubature points on source-cell interfaces,
            \* XF = coarse -> fine, XS = the same fine mesh in its original numbering -> the (permuted) fine mesh
            Fail(C.xfail = 0, "IntermeshUnmapped"),
